@@ -10,12 +10,13 @@ open SigModel.MachInt
 
 /-! ### vocabulary -/
 
-/-- the numeric reading of one event's value on the query path: numbers, and strings that strconv.ParseFloat accepts -/
+/-- the numeric reading of one event's value (both paths, fixed code): numbers, and strings that are decimal numerals
+(`parseFast exact` = the exact value of `[+-]digits[.digits][e[+-]digits]` with at least one mantissa digit) -/
 def Val.number? : Val → Option Rat
   | .absent => none
   | .int i => some (i : Rat)
   | .flt q => some q
-  | .str s => parseStd exact s
+  | .str s => parseFast exact s
 
 /-- the numeric values of the events, in order -/
 def numbers (vs : List Val) : List Rat := vs.filterMap Val.number?
@@ -26,44 +27,40 @@ def total : List Rat → Rat
   | x :: r => x + total r
 
 /-- the int64 running sum cannot wrap, whatever the order and the split: Σ |i| over the integer values < 2^63 -/
-def NoInt64Overflow (vs : List Val) : Prop := absIntSum (nums (parseStd exact) vs) < 9223372036854775808
+def NoInt64Overflow (vs : List Val) : Prop := absIntSum (nums (parseFast exact) vs) < 9223372036854775808
 
 instance (vs : List Val) : Decidable (NoInt64Overflow vs) := by unfold NoInt64Overflow; infer_instance
 
-/-- the part lacks the field altogether, or holds at least one numeric value (it is not "text only") -/
-def HasNum (vs : List Val) : Prop := present vs = 0 ∨ nums (parseStd exact) vs ≠ []
-
-instance (vs : List Val) : Decidable (HasNum vs) := by unfold HasNum; infer_instance
-
-/-- every string of the list is a numeral proper or no FastParseFloat form at all (no "-", "+", ".", "e5", …) -/
+/-- every string of the list is a numeral proper or no FastParseFloat form at all (no "-", "+", ".", "e5", …): the class on
+which the paths agreed BEFORE the fixes -/
 def NoDigitlessForm (vs : List Val) : Prop := ∀ s, Val.str s ∈ vs → HasMantissaDigit s
 
 /-! ### bridge -/
 
-theorem number_eq (v : Val) : v.number? = (numOf (parseStd exact) v).map Num.toRat := by
+theorem number_eq (v : Val) : v.number? = (numOf (parseFast exact) v).map Num.toRat := by
   cases v with
   | absent => rfl
   | int i => rfl
   | flt q => rfl
-  | str s => cases h : parseStd exact s <;> simp [Val.number?, numOf, h, Num.toRat]
+  | str s => cases h : parseFast exact s <;> simp [Val.number?, numOf, h, Num.toRat]
 
-theorem numbers_eq (vs : List Val) : numbers vs = ratVals (nums (parseStd exact) vs) := by
+theorem numbers_eq (vs : List Val) : numbers vs = ratVals (nums (parseFast exact) vs) := by
   unfold numbers ratVals nums
   induction vs with
   | nil => rfl
   | cons v r ih =>
     simp only [List.filterMap_cons, number_eq]
-    cases h : numOf (parseStd exact) v <;> simp [ih]
+    cases h : numOf (parseFast exact) v <;> simp [ih]
 
 theorem total_ratVals (ns : List Num) : total (ratVals ns) = ratSum ns := by
   induction ns with
   | nil => rfl
   | cons x r ih => simp [ratVals, total, ratSum] at *; rw [ih]
 
-theorem numbers_length (vs : List Val) : (numbers vs).length = (nums (parseStd exact) vs).length := by
+theorem numbers_length (vs : List Val) : (numbers vs).length = (nums (parseFast exact) vs).length := by
   rw [numbers_eq]; simp [ratVals]
 
-theorem numbers_nil_iff (vs : List Val) : numbers vs = [] ↔ nums (parseStd exact) vs = [] := by
+theorem numbers_nil_iff (vs : List Val) : numbers vs = [] ↔ nums (parseFast exact) vs = [] := by
   rw [numbers_eq]; simp [ratVals]
 
 theorem NoInt64Overflow.left {xs ys : List Val} (h : NoInt64Overflow (xs ++ ys)) : NoInt64Overflow xs := by
@@ -72,20 +69,6 @@ theorem NoInt64Overflow.right {xs ys : List Val} (h : NoInt64Overflow (xs ++ ys)
   unfold NoInt64Overflow at *; rw [nums_append, absIntSum_append] at h; omega
 theorem NoInt64Overflow.swap {xs ys : List Val} (h : NoInt64Overflow (xs ++ ys)) : NoInt64Overflow (ys ++ xs) := by
   unfold NoInt64Overflow at *; rw [nums_append, absIntSum_append] at *; omega
-
-theorem HasNum.numFirst {xs : List Val} (h : HasNum xs) (ys : List Val) : NumFirst (parseStd exact) xs ys := by
-  rcases h with h | h
-  · exact Or.inl h
-  · exact Or.inr (Or.inl h)
-
-theorem HasNum.append {xs ys : List Val} (hx : HasNum xs) (hy : HasNum ys) : HasNum (xs ++ ys) := by
-  unfold HasNum at *
-  rw [present_append, nums_append]
-  rcases hx with hx | hx
-  · rcases hy with hy | hy
-    · left; omega
-    · right; intro h; exact hy (List.append_eq_nil_iff.mp h).2
-  · right; intro h; exact hx (List.append_eq_nil_iff.mp h).1
 
 /-! ### the closed form commutes -/
 
@@ -119,13 +102,6 @@ theorem build_comm (parse : Str → Option Rat) (xs ys : List Val)
 
 /-- left-to-right merge of the statistics of the parts (what StatsResults.MergeSegStats does batch after batch) -/
 def mergeAll (ps : List (List Val)) : Option SegStats := ps.foldl (fun acc p => mergeO exact acc (foldQ exact p)) none
-
-theorem hasNum_flatten (ps : List (List Val)) (h : ∀ p ∈ ps, HasNum p) : HasNum ps.flatten := by
-  induction ps with
-  | nil => left; rfl
-  | cons p r ih =>
-    rw [List.flatten_cons]
-    exact HasNum.append (h p (by simp)) (ih (fun q hq => h q (by simp [hq])))
 
 theorem mergeAll_snoc (ps : List (List Val)) (p : List Val) :
     mergeAll (ps ++ [p]) = mergeO exact (mergeAll ps) (foldQ exact p) := by
